@@ -236,7 +236,9 @@ def strat_cdf2(tier):
     return st.builds(
         lambda m, u, as_list: dict(model=m, u=u, as_list=as_list),
         nonneg_model((2,)),
-        st.lists(st.one_of(st.floats(0.05, 0.95), st.sampled_from([0.001, 0.999])), min_size=2, max_size=2),
+        # (not closer to the support boundary than the 3 % quantile: virocon integrates from 0, and QUADPACK cannot see a
+        # sliver of support that is a fraction of a percent of the integration interval)
+        st.lists(st.one_of(st.floats(0.05, 0.95), st.sampled_from([0.03, 0.97, 0.999])), min_size=2, max_size=2),
         st.booleans(),
     )
 
